@@ -54,6 +54,13 @@ def message(fmt, inner, digest):
         return ["Struct", [["hdr", B], ["msg", ["Prefixed", B, ["Struct", [["fields", ["RawCopy", ir]], ["checksum", ck]]]]], ["after", B]]]
     if fmt == "header":
         return ["Struct", [["magic", ["Const", tag(b"MG"), None]], ["fields", ["RawCopy", ir]], ["checksum", ck], ["trail", B]]]
+    if fmt == "offsetted":
+        # the covered region is delimited from the end (everything up to the digest), inside a length-prefixed record that does
+        # not start at offset 0 of the stream
+        return ["Struct", [["hdr", B], ["msg", ["Prefixed", B, ["Struct", [["fields", ["OffsettedEnd", -dn, ["RawCopy", ir]]], ["checksum", ck]]]]], ["after", B]]]
+    if fmt == "focused":
+        # the record written with FocusedSeq (the result is the RawCopy container itself)
+        return ["Struct", [["hdr", B], ["rec", ["FocusedSeq", "fields", [["fields", ["RawCopy", ir]], ["checksum", ck]]]], ["after", B]]]
     if fmt == "footer":
         # a fixed-position footer is written first: while the covered region is built the stream already extends beyond it
         return ["Struct", [["foot", ["Pointer", FOOT, ["Const", tag(b"END"), None]]], ["fields", ["RawCopy", ir]], ["checksum", ck]]]
@@ -61,8 +68,10 @@ def message(fmt, inner, digest):
 
 
 def msg_value(fmt, v):
-    if fmt == "prefixed":
+    if fmt in ("prefixed", "offsetted"):
         return {"hdr": 7, "msg": {"fields": {"value": v}}, "after": 9}
+    if fmt == "focused":
+        return {"hdr": 7, "rec": {"value": v}, "after": 9}
     if fmt == "header":
         return {"fields": {"value": v}, "trail": 3}
     return {"fields": {"value": v}}
@@ -70,7 +79,7 @@ def msg_value(fmt, v):
 
 def region_start(fmt, digest):
     dn = DIGESTS[digest][1]
-    return {"trailing": 0, "pointer": dn, "prefixed": 2, "header": 2, "footer": 0}[fmt]
+    return {"trailing": 0, "pointer": dn, "prefixed": 2, "header": 2, "footer": 0, "offsetted": 2, "focused": 1}[fmt]
 
 
 def reference_verdict(fmt, inner, digest, msg):
@@ -79,7 +88,7 @@ def reference_verdict(fmt, inner, digest, msg):
     dr, dn = DIGESTS[digest]
     view = msg
     end_after = 0
-    if fmt == "prefixed":
+    if fmt in ("prefixed", "offsetted"):
         if len(msg) < 2:
             return ("reject",)
         n = msg[1]
@@ -93,19 +102,24 @@ def reference_verdict(fmt, inner, digest, msg):
     if fmt == "footer" and msg[FOOT:FOOT + 3] != b"END":
         return ("reject",)
     start = region_start(fmt, digest)
-    s = TracedStream(view, pos=start)
+    inner_view = view
+    if fmt == "offsetted":
+        if len(view) - dn < start:
+            return ("reject",)
+        inner_view = view[:len(view) - dn]          # the inner construct is confined to everything before the digest
+    s = TracedStream(inner_view, pos=start)
     try:
         mk(ir).parse_stream(s)
     except Exception:
         return ("reject",)
     region = view[start:s.pos]
-    dpos = 0 if fmt == "pointer" else s.pos
+    dpos = 0 if fmt == "pointer" else (len(view) - dn if fmt == "offsetted" else s.pos)
     ds = TracedStream(view, pos=dpos)
     try:
         dv = mk(dr).parse_stream(ds)
     except Exception:
         return ("reject",)
-    if fmt == "header" and len(view) < ds.pos + 1:
+    if fmt in ("header", "focused") and len(view) < ds.pos + 1:
         return ("reject",)
     h = HASHES[digest](region)
     same = (list(dv) == h) if isinstance(h, list) else (dv == h)
@@ -141,7 +155,7 @@ def run_message(ctx, case):
     except Exception as e:
         ctx.violation("built-checksum-does-not-verify:%s:%s" % (fmt, type(e).__name__), "parse(build(v)) raised %s: %s" % (type(e).__name__, e), case)
         return
-    f = back.msg.fields if fmt == "prefixed" else back.fields
+    f = back.msg.fields if fmt in ("prefixed", "offsetted") else back.rec if fmt == "focused" else back.fields
     if not veq(f.value, mk(ir).parse(enc)) or f.data != enc:
         ctx.violation("checksum-roundtrip-value:" + fmt, "parsed fields differ from what was built", case)
     ctx.count("messages")
@@ -202,7 +216,7 @@ def run_message(ctx, case):
         if want[0] == "checksum" and got[0] != "checksum":
             ctx.violation("corruption-wrong-exception:%s:%s" % (got[1], digest), "bit %d (%s) flipped, layout intact: expected ChecksumError, got %s" % (bit, where, got[1]), dict(case, bit=bit))
             break
-        if variable or fmt == "prefixed":
+        if variable or fmt in ("prefixed", "offsetted"):
             ctx.nontrivial("flip", fmt, inner, digest, case["value"], bit)
     else:
         return
@@ -234,6 +248,10 @@ def run_rawcopy(ctx, case):
     elif wrapk == "fixedsized":
         d, pre, post = C.FixedSized(len(enc) + 4, C.Struct("k" / C.Bytes(2), "r" / rc)), b"kk", b"\x00\x00"
         get = lambda r: r.r
+        bv = None
+    elif wrapk == "offsettedend":
+        d, pre, post = C.Struct("k" / C.Bytes(2), "p" / C.Prefixed(C.Byte, C.Struct("r" / C.OffsettedEnd(-2, rc), "z" / C.Bytes(2))), "t" / C.Byte), b"kk" + bytes([len(enc) + 2]), b"\xaa\xbb\x09"
+        get = lambda r: r.p.r
         bv = None
     elif wrapk.startswith("nt-"):
         # inside a terminator-delimited region, with each of NullTerminated's options; the terminator is a byte the encoding lacks
@@ -269,7 +287,7 @@ def run_rawcopy(ctx, case):
         return
     if wrapk in ("plain", "struct") and s.pos != (o2 if wrapk == "plain" else o2 + 1):
         ctx.violation("rawcopy-position-after", "stream at %d after parse" % s.pos, case)
-    if off or wrapk in ("prefixed", "fixedsized") or wrapk.startswith("nt-"):
+    if off or wrapk in ("prefixed", "fixedsized", "offsettedend") or wrapk.startswith("nt-"):
         ctx.nontrivial("rawcopy", inner, wrapk, off, case["value"])
     ctx.count("rawcopy_parses")
     if bv is None:
@@ -356,7 +374,7 @@ def run_case(ctx, case):
 
 def run(ctx):
     rng = ctx.rng
-    fmts = ["trailing", "pointer", "prefixed", "header", "footer"]
+    fmts = ["trailing", "pointer", "prefixed", "header", "footer", "offsetted", "focused"]
     combos = [(f, i, g) for f in fmts for i in INNERS for g in DIGESTS]
     per = ctx.pick(1, 12)
     if ctx.index == 0:
@@ -372,7 +390,7 @@ def run(ctx):
                 ctx.sample(case)
     k = 0
     for i in INNERS:
-        for wrapk in ("plain", "struct", "prefixed", "fixedsized", "nt-default", "nt-include", "nt-noconsume", "nt-norequire-eof"):
+        for wrapk in ("plain", "struct", "prefixed", "fixedsized", "offsettedend", "nt-default", "nt-include", "nt-noconsume", "nt-norequire-eof"):
             for off in range(10):
                 k += 1
                 if not ctx.mine(k):
